@@ -84,6 +84,11 @@ def dist_case(draw):
     return dict(system=sysd, rows=rows, neutral=neutral, relative=relative, regime=regime)
 
 
+def _name(B, what):
+    """the documented alias (gamut_*) or the method itself (hull_*), chosen from the case content"""
+    return ("gamut_" if int(abs(float(np.sum(B))) * 1e6) % 2 else "hull_") + what
+
+
 def body_dist(case):
     sv = Sys(case["system"])
     rel = case["relative"]
@@ -106,9 +111,9 @@ def body_dist(case):
         with np.errstate(all="ignore"):
             # both scalings, the intensity one first (as in the documented work flow): queries do not change the registered system
             with unchanged("dist", estimator=est):
-                est.gamut_l1_scaling(B, relative=rel)
-                out = est.gamut_dist_scaling(B, neutral_point=(None if case["neutral"] is None else neutral), relative=rel)
-                again = est.gamut_dist_scaling(B, neutral_point=(None if case["neutral"] is None else neutral), relative=rel)
+                getattr(est, _name(B, "l1_scaling"))(B, relative=rel)
+                out = getattr(est, _name(B, "dist_scaling"))(B, neutral_point=(None if case["neutral"] is None else neutral), relative=rel)
+                again = getattr(est, _name(B, "dist_scaling"))(B, neutral_point=(None if case["neutral"] is None else neutral), relative=rel)
     out = np.asarray(out, dtype=float)
     check(np.array_equal(out, np.asarray(again, dtype=float), equal_nan=True), "dist:second-call-differs", "the same call on the same estimator gives another result")
     check(np.array_equal(B, B0), "dist:input-modified", "caller's target array modified")
@@ -190,8 +195,8 @@ def body_l1(case):
     with calling(f"gamut_l1_scaling(relative={rel})"):
         est = sv.make_estimator()
         with unchanged("l1", estimator=est):
-            out = np.asarray(est.gamut_l1_scaling(B, relative=rel), dtype=float)
-            again = np.asarray(est.gamut_l1_scaling(B, relative=rel), dtype=float)
+            out = np.asarray(getattr(est, _name(B, "l1_scaling"))(B, relative=rel), dtype=float)
+            again = np.asarray(getattr(est, _name(B, "l1_scaling"))(B, relative=rel), dtype=float)
     check(np.array_equal(out, again, equal_nan=True), "l1:second-call-differs", "the same call on the same estimator gives another result")
     check(np.array_equal(B, B0), "l1:input-modified", "caller's target array modified")
     check(out.shape == B.shape and np.all(np.isfinite(out)), "l1:shape", f"{out.shape}")
